@@ -312,6 +312,11 @@ pub fn run() {
         let d = gen_gadget_rich(r, 5, pool, 0.0);
         check_desc("gadget-rich", i, r, &d);
     });
+    par_cases("gadget-pairs", n_rand, move |r, i| {
+        let pool = if r.chance(0.5) { PhasePool::Exact } else { PhasePool::CliffordHeavy };
+        let d = gen_gadget_pairs(r, pool, 0.0);
+        check_desc("gadget-pairs", i, r, &d);
+    });
     let (cq, cd) = t.pick((3usize, 14usize), (4usize, 24usize));
     par_cases("circuit-derived", n_rand / 2, move |r, i| {
         let pool = if r.chance(0.7) { PhPool::Exact } else { PhPool::Float };
